@@ -38,6 +38,11 @@ func init() {
 		RegisterScenario(&Scenario{Name: "c11/resume-" + m, Run: func(p []int, _ []vsched.ChoicePoint) explore.Outcome { return c11Run(p, "resume-"+m) },
 			Doc: "as reopen-" + m + ", the new stream being opened with Last-Event-ID (a resuming client); Write/Flush on a ResponseWriter are non-atomic, concurrent use is reported"})
 	}
+	for _, m := range []string{"send", "roots"} {
+		m := m
+		RegisterScenario(&Scenario{Name: "c11/noinit-" + m, Run: func(p []int, _ []vsched.ChoicePoint) explore.Outcome { return c11Run(p, "noinit-"+m) },
+			Doc: "as reopen-" + m + ", by a peer that never sent notifications/initialized"})
+	}
 	RegisterScenario(&Scenario{Name: "c11/triple", Run: func(p []int, m []vsched.ChoicePoint) explore.Outcome { return c11Run(p, "triple") },
 		Doc: "GET#1 registered; GET#2 || GET#3 opened concurrently; sends at quiescence must reach the surviving stream"})
 	RegisterCheck("C11", func(c *Ctx) {
@@ -48,6 +53,8 @@ func init() {
 		c.DFSBoth("c11/reopen-send", explore.Bounds{Preempt: pb, Dev: 2}, 2)
 		c.DFSBoth("c11/reopen-roots", explore.Bounds{Preempt: pb, Dev: 2}, 1)
 		c.DFSBoth("c11/reopen-close1", explore.Bounds{Preempt: pb, Dev: 2}, 1)
+		c.DFSBoth("c11/noinit-send", explore.Bounds{Preempt: pb, Dev: 1, MaxExec: c.Pick(8000, 300000)}, 1)
+		c.DFSBoth("c11/noinit-roots", explore.Bounds{Preempt: pb, Dev: 1, MaxExec: c.Pick(8000, 300000)}, 1)
 		c.DFSBoth("c11/resume-send", explore.Bounds{Preempt: pb, Dev: 1, MaxExec: c.Pick(8000, 300000)}, 1)
 		c.DFSBoth("c11/resume-roots", explore.Bounds{Preempt: pb, Dev: 1, MaxExec: c.Pick(8000, 300000)}, 1)
 		c.DFSBoth("c11/triple", explore.Bounds{Preempt: c.Pick(3, 5), Dev: 1}, 1)
@@ -186,12 +193,29 @@ func c11Run(prefix []int, mode string) explore.Outcome {
 		get2Hdr = map[string]string{"Last-Event-ID": "evt-1-1"}
 		defer nonAtomicWriters()()
 	}
+	// noinit-*: a peer that never sends notifications/initialized after its initialize (nothing in the
+	// property makes the ownership of a listening stream depend on it)
+	noInit := false
+	if strings.HasPrefix(mode, "noinit-") {
+		mode = strings.TrimPrefix(mode, "noinit-")
+		noInit = true
+	}
 	res := vsched.Run(cfgFor(prefix), func() {
 		vsched.SetBranching(false)
 		srv := mcp.NewServer("s", "1", mcp.WithServerLogger(hx.Nop{}))
 		fab := memnet.NewFabric("srv", srv.Handler())
 		peer := hx.NewPeer(fab, "http://srv/mcp")
-		sid, err := peer.Handshake()
+		var sid string
+		var err error
+		if noInit {
+			r0 := peer.Post("", hx.InitBody(1, "2025-03-26"))
+			sid, err = r0.SessionID(), r0.Err
+			if err == nil && (r0.Status != 200 || sid == "") {
+				err = fmt.Errorf("initialize: status %d", r0.Status)
+			}
+		} else {
+			sid, err = peer.Handshake()
+		}
 		if err != nil {
 			viol = append(viol, V("harness", "handshake failed: %v", err))
 			return
